@@ -108,6 +108,94 @@ def part1_radius(ctx, report):
 
 
 # ======================================================================================================
+# Part 1c: the closed formulas the Lean cutoff facts are stated about  vs  the real functions
+# ======================================================================================================
+def part1_formulas(ctx, report):
+    """Theory/DataflowFacts.lean restates smooth_cutoff, the cosine / smooth_finite embeddings with cutoff=True and one
+    FullyConnectedNet layer as closed formulas over R.  Here the same formulas (transcribed to Python) are compared
+    with the real functions on grids that contain the boundary points."""
+    import torch
+    from e3nn.math import soft_one_hot_linspace
+    from e3nn.nn import FullyConnectedNet
+    from e3nn.nn.models import gate_points_2101 as m1, gate_points_2102 as m2
+    bad = []
+    # --- smooth_cutoff
+    xs = torch.cat([torch.linspace(-0.2, 1.6, 721), torch.tensor([0.5, 1.0, math.nextafter(1.0, 0), math.nextafter(1.0, 2),
+                                                                   math.nextafter(0.5, 0), math.nextafter(0.5, 1)])])
+    def f_cut(x):
+        u = 2 * (x - 1)
+        return 0.0 if u > 0 else (1.0 if u < -1 else (1 - math.cos(math.pi * u)) / 2)
+    ref = torch.tensor([f_cut(float(x)) for x in xs])
+    for nm, mod in (("2101", m1), ("2102", m2)):
+        got = mod.smooth_cutoff(xs.clone())
+        e = float((got - ref).abs().max())
+        ctx.case({"formula": "smooth_cutoff", "module": nm, "points": int(xs.numel()), "max_err": e})
+        if e > 1e-15 or bool((got[xs >= 1] != 0).any()):
+            bad.append(f"smooth_cutoff[{nm}] err={e}")
+    # --- embeddings
+    c_sf = 1.14136 * math.exp(2.0)
+    boundary_max = [0.0]
+
+    def sus(y):
+        return math.exp(-1 / y) if y > 0 else 0.0
+    for basis in ("cosine", "smooth_finite"):
+        for (start, end, number) in ((0.0, 1.6, 10), (0.0, 2.0, 3), (0.5, 1.7, 2), (0.0, 1.0, 5)):
+            step = (end - start) / (number + 1)
+            xs = torch.cat([torch.linspace(start - 0.3, end + 0.3, 401),
+                            torch.tensor([start, end, math.nextafter(end, 0), math.nextafter(end, 9), end * (1 - 1e-9)])])
+            got = soft_one_hot_linspace(xs, start, end, number, basis=basis, cutoff=True)
+            ref = torch.zeros_like(got)
+            for a, x in enumerate(xs.tolist()):
+                for i in range(number):
+                    d = (x - (start + (i + 1) * step)) / step
+                    if basis == "cosine":
+                        ref[a, i] = math.cos(math.pi / 2 * d) if -1 < d < 1 else 0.0
+                    else:
+                        ref[a, i] = c_sf * sus(d + 1) * sus(1 - d)
+            e = float((got - ref).abs().max())
+            # over R the value is exactly 0 on x <= start and x >= end.  In floats `(x - values) / step` can round to
+            # 1 - 2^-53 at x == end exactly, so AT the two end points the code may return |cos| ~ 1e-16 instead of 0;
+            # strictly outside it must be exactly 0.
+            tol_b = 1e-12 * (end - start)
+            outside = (xs >= end + tol_b) | (xs <= start - tol_b)
+            boundary = ((xs >= end) | (xs <= start)) & ~outside
+            exact0 = not bool((got[outside] != 0).any())
+            bmax = float(got[boundary].abs().max()) if bool(boundary.any()) else 0.0
+            boundary_max[0] = max(boundary_max[0], bmax)
+            ctx.case({"formula": basis, "start": start, "end": end, "number": number, "max_err": e, "exact_zero_outside": exact0,
+                      "max_at_end_points": bmax})
+            if e > 1e-12 or not exact0 or bmax > 1e-15:
+                bad.append(f"{basis}({start},{end},{number}) err={e} exact_zero_outside={exact0} at_end_points={bmax}")
+    # --- FullyConnectedNet: bias-free, layers x @ (W cIn) -> act -> * cOut, last layer without activation; FCN(0) = 0
+    g = torch.Generator().manual_seed(ctx.rng.randrange(10 ** 6))
+    for hs in ([3, 5, 4], [10, 100, 7], [2, 3]):
+        net = FullyConnectedNet(hs, torch.nn.functional.silu).to(torch.float64)
+        has_bias = any("bias" in n for n, _ in net.named_parameters())
+        x = torch.randn(6, hs[0], generator=g)
+        y = x
+        layers = list(net)
+        for L in layers:
+            if L.act is not None:
+                y = L.act(y @ (L.weight / (L.h_in * L.var_in) ** 0.5)) * L.var_out ** 0.5
+            else:
+                y = y @ (L.weight / (L.h_in * L.var_in / L.var_out) ** 0.5)
+        with torch.no_grad():
+            e = float((net(x) - y).abs().max())
+            z = net(torch.zeros(2, hs[0]))
+            a0 = [float(L.act(torch.zeros(1))) for L in layers if L.act is not None]
+        ctx.case({"formula": "FullyConnectedNet", "hs": hs, "max_err": e, "act(0)": a0, "net(0)": float(z.abs().max())})
+        if e > 1e-12 or has_bias or any(v != 0 for v in a0) or float(z.abs().max()) != 0.0:
+            bad.append(f"FullyConnectedNet{hs}: err={e} bias={has_bias} act(0)={a0} net(0)={float(z.abs().max())}")
+    ctx.notes["float_artefact_at_exact_cutoff"] = (
+        f"soft_one_hot_linspace(..., cutoff=True) evaluated in floats exactly AT x == end returns up to {boundary_max[0]:.2e} "
+        "instead of 0 (the normalised difference rounds to 1 - 2^-53); strictly beyond it is exactly 0. Irrelevant for the "
+        "radius-graph models (a pair at exactly r_max is not an edge) and below every tolerance for explicit edge lists.")
+    ctx.obligation("corr:cutoff-formulas(Lean statements are about the functions the code computes)", not bad, "; ".join(bad))
+    if bad:
+        report("corr:cutoff-formulas", {"disagreements": bad}, found=False)
+
+
+# ======================================================================================================
 # Part 2: recorder -> IR -> Lean
 # ======================================================================================================
 def trace_adapter(ad, S):
@@ -541,7 +629,7 @@ def large_graph(ctx, report, ad, gen, param_seed):
         S = Z.random_sample(ad, gen, sizes=(n,), spread=1.5)
         y, ex = O._try(ad, S)
         if ex:
-            report(f"{ad.family}/large-graph(n>25)/exception", {"adapter": ad.name, "n": n, "exception": ex})
+            report(f"{ad.family}/large-graph-n26/exception", {"adapter": ad.name, "n": n, "exception": ex})
             return
         fails = []
         for imp in (False, True):
@@ -558,7 +646,7 @@ def large_graph(ctx, report, ad, gen, param_seed):
                                            "uses the matrix-multiplication formula and returns small positive self "
                                            "distances, so self loops (edge_vec = 0) appear depending on the absolute "
                                            "coordinates"})
-            report(f"{ad.family}/large-graph(n>25)/symmetry", info)
+            report(f"{ad.family}/large-graph-n26/symmetry", info)
             return
 
 
@@ -710,6 +798,7 @@ def run(ctx):
     try:
         t0 = time.time()
         part1_radius(ctx, report)
+        part1_formulas(ctx, report)
         ctx.log(f"radius-graph stream: {time.time() - t0:.1f}s")
 
         variants = [0] if ctx.tier == "quick" else [0, 1, 2]
